@@ -128,7 +128,32 @@ def use_fake_pool(on=True):
 # --------------------------------------------------------------------------
 # global state that survives between in-process cases
 # --------------------------------------------------------------------------
+def clear_caches():
+    """Clear every functools cache defined in the fortls package: cases executed in
+    one long-lived worker must not influence each other through memoised state
+    (a violation must reproduce from its own replay file)."""
+    for name, mod in list(sys.modules.items()):
+        if not name.startswith("fortls") or mod is None:
+            continue
+        for obj in list(vars(mod).values()):
+            cc = getattr(obj, "cache_clear", None)
+            if callable(cc):
+                try:
+                    cc()
+                except Exception:
+                    pass
+            if isinstance(obj, type):
+                for m in list(vars(obj).values()):
+                    cc = getattr(m, "cache_clear", None) or getattr(getattr(m, "__func__", None), "cache_clear", None)
+                    if callable(cc):
+                        try:
+                            cc()
+                        except Exception:
+                            pass
+
+
 def reset_globals():
+    clear_caches()
     import fortls.helper_functions as hf
     import fortls.parsers.internal.intrinsics as intr
 
